@@ -226,6 +226,18 @@ PairFamily(id) ==
     [] id = "thorough" -> {<<x, y>> : x \in XMachines, y \in YMachines}
 
 ---------------------------------------------------------------------------
+\* C05 thorough: lazily synthesised tables. Actions and counters are fixed, every transition vector
+\* of the listed events is chosen the first time it is consulted (Framework!EntryChoices).
+LazyVec == <<T(-9, 0)>>
+LazyTrans(E) == [e \in E |-> LazyVec]
+LazyEvents == {"NormalSent", "PaddingSent", "LimitReached", "CounterZero", "Signal"}
+LazyM ==
+  Mach(1000, Unset, 1000, Unset,
+       <<St(Pad(FALSE, TRUE, Const(4), Const(1)), Ctr("inc"), NoCtr, LazyTrans(LazyEvents)),
+         St(Block(TRUE, FALSE, Const(2), Const(6), NoDist), Ctr("dec"), NoCtr, LazyTrans(LazyEvents))>>)
+LazyConfs == {Cf(<<LazyM>>, Unset, Unset), Cf(<<LazyM, SigBoth(8)>>, Unset, Unset)}
+
+---------------------------------------------------------------------------
 FamilyConfs(id) ==
   CASE id = "pad-quick"    -> PadConfs({0, 1}, {Unset, Half}, {Unset, Half})
     [] id = "pad-thorough" -> PadConfs({0, 1, 2}, {Unset, Quarter, Half, One}, {Unset, Quarter, Half, One})
@@ -246,6 +258,7 @@ FamilyConfs(id) ==
     [] id = "sig-trio"     -> SigConfs3
     [] id = "sig-thorough" -> SigConfs1 \cup SigConfs2 \cup SigConfs3
     [] id = "end-quick"    -> {Cf(<<EndM>>, Unset, Unset), Cf(<<EndM, Inert>>, Unset, Unset), Cf(<<Inert, EndM>>, Unset, Unset)}
+    [] id = "lazy"         -> LazyConfs
     [] id = "core-quick"   -> CoreConfs0 \cup CoreConfs1
     [] id = "core-thorough" -> CoreConfs0 \cup CoreConfs1 \cup CoreConfs2
 
@@ -277,6 +290,7 @@ AlphabetOf(id) ==
     [] id = "sig"   -> Glob({"NormalSent", "NormalRecv", "TunnelRecv"}) \cup Addr({"PaddingSent"}, {0, 1, 2})
     [] id = "core"  -> Glob({"NormalSent", "NormalRecv", "BlockingEnd", "TunnelSent"})
                        \cup Addr({"PaddingSent", "BlockingBegin", "TimerBegin", "TimerEnd"}, {0, 5})
+    [] id = "lazy"  -> Glob({"NormalSent"}) \cup Addr({"PaddingSent"}, {0})
     [] id = "end"   -> Glob({"NormalSent", "NormalRecv"}) \cup Addr({"PaddingSent", "TimerBegin", "TimerEnd"}, {0, 1})
     [] id = "full"  -> Glob(ExtKinds \ WithMachine) \cup Addr(WithMachine, {0, 1, 5})
 =============================================================================
